@@ -24,6 +24,9 @@ func c15Step(x *engine.Exec) []engine.Failure {
 		}
 		if pendingInto {
 			x.Cnt.Inc("redelegate.attempt_out_of_pending_destination")
+			if x.Prev.Used[ClsSlash] > 0 {
+				x.Cnt.Inc("redelegate.attempt_out_of_pending_destination_after_slash")
+			}
 			if !x.Res.Rejected {
 				out = append(out, fail("onward-hop", "allowed-while-pending", "%s succeeded although a redelegation of d%d into v%d (%s) is still pending", x.Op.String(), x.Op.D, x.Op.V, x.Op.Denom))
 			}
@@ -31,7 +34,12 @@ func c15Step(x *engine.Exec) []engine.Failure {
 			if strings.Contains(x.Res.Err.Error(), transitiveMsg) {
 				out = append(out, fail("onward-hop", "blocked-without-pending-entry", "%s rejected as transitive although no redelegation of d%d into v%d (%s) is pending", x.Op.String(), x.Op.D, x.Op.V, x.Op.Denom))
 			} else if p, ok := prev.FindPos(x.Op.D, x.Op.V, x.Op.Denom); ok && x.Res.Amount.IsPositive() && x.Res.Amount.LT(p.Reported) {
-				out = append(out, fail("onward-hop", "rejected-with-sufficient-balance", "%s rejected (%v) with reported balance %s and nothing pending into the source", x.Op.String(), x.Res.Err, p.Reported))
+				cause := "rejected-with-sufficient-balance"
+				if D := prev.Vals[x.Op.V].DelShares[x.Op.Denom]; D != nil && D.Sign() > 0 && D.Cmp(ratI(1)) < 0 && strings.Contains(x.Res.Err.Error(), "insufficient delegation shares") {
+					// K-C05-below-one-delegator-share seen from a redelegation: tokens are priced 1:1 in shares on such a validator
+					cause = "move-out-of-validator-below-one-delegator-share"
+				}
+				out = append(out, fail("onward-hop", cause, "%s rejected (%v) with reported balance %s and nothing pending into the source", x.Op.String(), x.Res.Err, p.Reported))
 			} else {
 				x.Cnt.Inc("redelegate.rejected_for_balance")
 			}
@@ -41,6 +49,18 @@ func c15Step(x *engine.Exec) []engine.Failure {
 		return out
 	}
 	next := x.Next.Snap()
+	if x.Op.K == world.KSlash {
+		for _, r := range ref.Red {
+			if r.Src != x.Op.V || r.C < prev.Time.UnixNano() {
+				continue
+			}
+			x.Cnt.Inc("slash.source_of_pending_entry")
+			_, had := prev.FindPos(r.D, r.Dst, r.Denom)
+			if _, has := next.FindPos(r.D, r.Dst, r.Denom); had && !has {
+				x.Cnt.Inc("slash.wiped_destination_of_pending_entry")
+			}
+		}
+	}
 	switch {
 	case isRed:
 		x.Cnt.Inc("redelegate.ok")
@@ -73,7 +93,11 @@ func c15Step(x *engine.Exec) []engine.Failure {
 			out = append(out, fail("move", "source-delta", "%s: source position moved by %s, expected -%s", x.Op.String(), world.RatF(dSrc), x.Res.Amount))
 		}
 		if absRat(ratSub(dDst, amt)).Cmp(tl) > 0 {
-			out = append(out, fail("move", "destination-delta", "%s: destination position moved by %s, expected +%s", x.Op.String(), world.RatF(dDst), x.Res.Amount))
+			cause := "destination-delta"
+			if c := c15Unowned(prev, x.Op.V2, x.Op.Denom); c != "" && x.Prev.Used[ClsSlash] > 0 {
+				cause = c
+			}
+			out = append(out, fail("move", cause, "%s: destination position moved by %s, expected +%s", x.Op.String(), world.RatF(dDst), x.Res.Amount))
 		}
 		for _, den := range prev.Denoms {
 			if !prev.Assets[den].TotalTokens.Equal(next.Assets[den].TotalTokens) {
@@ -125,6 +149,23 @@ func c15Step(x *engine.Exec) []engine.Failure {
 	return out
 }
 
+// c15Unowned recognises a destination validator that holds value nobody owns: its validator shares of the asset are
+// worth tokens while no delegation (or less than one delegator share) stands against them. slashRedelegations leaves
+// such value behind when it burns the delegator shares of a destination without touching the validator's shares or
+// the asset totals (K-C07-redelegation-slash-dilution); whoever delegates or redelegates there next is priced
+// against it (first delegator: shares 1:1 but all of the validator's tokens; below one share: 1:1 issuance).
+func c15Unowned(s *world.Snap, v int, denom string) string {
+	tok := s.Vals[v].Tokens[denom]
+	if tok == nil || tok.Sign() <= 0 {
+		return ""
+	}
+	D := s.Vals[v].DelShares[denom]
+	if D == nil || D.Cmp(ratI(1)) < 0 {
+		return "destination-validator-holds-value-left-by-redelegation-slash"
+	}
+	return ""
+}
+
 func init() {
 	seed := []world.Op{opDel(0, 0, "aaa", "1000"), opDel(0, 1, "aaa", "1000"), opDel(0, 2, "aaa", "1000"), opDel(1, 0, "aaa", "1000"), opDel(0, 0, "bbb", "50")}
 	register(&Property{
@@ -162,10 +203,29 @@ func init() {
 					Required: []string{"redelegate.ok", "redelegate.attempt_out_of_pending_destination", "redelegate.fan_in_same_block", "redelegate.repeated_same_pair_same_block", "endblock.matured_redelegation", "endblock.entry_exactly_at_completion_instant", "redelegate.rejected_for_balance"},
 				}
 			}
-			if tier == "thorough" {
-				return []*engine.Scenario{mk("c15-redelegation", []int{4, 0, 0, 4, 0}, 8)}
+			// the pending entry while its source is slashed: D0 is the only holder on V0 and moves everything to V1, takes most
+			// of it out of V1 again, then V0 is slashed so hard that the capped cut wipes what is left on V1; the entry and the
+			// onward-hop restriction must survive until maturity, also for fresh stake put on V1 afterwards
+			slashedOps := func(n *engine.Node) []world.Op {
+				ops := Alpha{Dels: []int{0}, Vals: []int{1}, Denoms: []string{"aaa"}, DelAmts: []string{"5"}, UndAmts: []string{"9", "4"},
+					SlashVals: []int{0}, SlashF: []string{"0.5", "1"}, BlockDts: dts(1, 3, 4)}.Ops(n)
+				ops = append(ops, world.Op{K: world.KRedelegateAll, D: 0, V: 0, V2: 1, Denom: "aaa", Class: ClsUser})
+				ops = append(ops, world.Op{K: world.KRedelegate, D: 0, V: 0, V2: 1, Denom: "aaa", Amt: "6", Class: ClsUser})
+				ops = append(ops, world.Op{K: world.KRedelegate, D: 0, V: 1, V2: 2, Denom: "aaa", Amt: "3", Class: ClsUser})
+				ops = append(ops, world.Op{K: world.KRedelegate, D: 1, V: 1, V2: 2, Denom: "aaa", Amt: "3", Class: ClsUser})
+				return ops
 			}
-			return []*engine.Scenario{mk("c15-redelegation", []int{3, 0, 0, 3, 0}, 5)}
+			mkSlashed := func(budgets []int, depth int) *engine.Scenario {
+				sc := mk("c15-slashed-source", budgets, depth)
+				sc.Seeds = [][]world.Op{{opDel(0, 0, "aaa", "10"), opDel(1, 2, "aaa", "1000")}, {opDel(0, 0, "aaa", "10"), opDel(1, 1, "aaa", "7"), opDel(1, 2, "aaa", "1000")}}
+				sc.Ops = slashedOps
+				sc.Required = []string{"redelegate.ok", "redelegate.attempt_out_of_pending_destination", "slash.source_of_pending_entry", "slash.wiped_destination_of_pending_entry", "redelegate.attempt_out_of_pending_destination_after_slash", "endblock.matured_redelegation"}
+				return sc
+			}
+			if tier == "thorough" {
+				return []*engine.Scenario{mk("c15-redelegation", []int{4, 0, 0, 4, 0}, 8), mkSlashed([]int{5, 2, 0, 3, 0}, 9)}
+			}
+			return []*engine.Scenario{mk("c15-redelegation", []int{3, 0, 0, 3, 0}, 5), mkSlashed([]int{4, 1, 0, 2, 0}, 6)}
 		},
 		Assumptions: []string{
 			"seed: D0 on V0,V1,V2 (aaa) and V0 (bbb), D1 on V0; unbonding period 3u; block steps 1u/2u/3u/7u; no reward inflow, so a redelegation's implicit claims pay nothing",
